@@ -16,8 +16,7 @@ abbrev SrcWindow := Gotlcp.Src.dtlcp.replayWindow
 
 /-- the parameters of the tree under test (the same record as `Props.C16.P`) -/
 def P : Params :=
-  { floor := Facts.dtlcp.replayFloor, newCeil := Facts.dtlcp.replayNewCeil,
-    spanCeil := Facts.dtlcp.replaySpanCeil, default := Facts.dtlcp.defaultReplayWindowSize }
+  treeParams Facts.dtlcp.defaultReplayWindowSize
 
 /-- abstraction: `right uint48` read as a natural number, `size int` as a natural number -/
 def abs (w : SrcWindow) : Window :=
@@ -27,14 +26,14 @@ def abs (w : SrcWindow) : Window :=
 theorem tie_new (n : Int) :
     abs (Src.dtlcp.newReplayWindow n) = newWindow P n ∧ 0 ≤ (Src.dtlcp.newReplayWindow n).size := by
   unfold Src.dtlcp.newReplayWindow newWindow abs P
-  simp only [Id.run, pure, Facts.dtlcp.replayFloor, Facts.dtlcp.replayNewCeil]
+  simp only [Id.run, pure, treeParams]
   by_cases h : n < 32 <;> simp [h] <;> omega
 
 /-- `span`, any window with a non-negative size -/
 theorem tie_span (w : SrcWindow) (h : 0 ≤ w.size) :
     (Src.dtlcp.replayWindow.span w).toNat = span P (abs w) := by
   unfold Src.dtlcp.replayWindow.span span abs P
-  simp only [Id.run, pure, Facts.dtlcp.replaySpanCeil]
+  simp only [Id.run, pure, treeParams]
   by_cases h64 : w.size > 64
   · have : w.size.toNat > 64 := by omega
     simp [h64, this]
